@@ -9,6 +9,7 @@ import VK.Model.Validate
 import VK.Model.Replay
 import VK.Model.Metric
 import VK.Model.BallotGraph
+import VK.Model.Loaders
 open Lean VK VK.Codec
 
 def getSTVCfg (j : Json) : D STVCfg := do
@@ -282,6 +283,29 @@ def handle (j : Json) : D Json := do
     let bs ← getList (getPair getCands getRat) (← field j "ballots")
     let nw := (nodeWeights n fix bs).filter (fun x => x.2 ≠ 0)
     pure (Json.mkObj [("ok", .arr (nw.map (fun x => Json.arr #[jCands x.1, jRat x.2])).toArray)])
+  | "load_csv" => do
+    let getCell : Json → D Cell := fun c => match c with
+      | .null => pure none
+      | v => do let n ← getNat v; pure (some n)
+    let rows ← getList (getList getCell) (← field j "rows")
+    let ids ← getList getCell (fieldD j "ids" .null)
+    let weights ← getList getRat (fieldD j "weights" .null)
+    let ncols ← getNat (← field j "ncols")
+    let rc ← getCands (fieldD j "rank_cols" .null)
+    let idc ← optField j "id_col" getNat
+    let wc ← optField j "weight_col" getNat
+    let ids' := if ids.isEmpty then rows.map (fun _ => (none : Cell)) else ids
+    let ws' := if weights.isEmpty then rows.map (fun _ => (1 : Rat)) else weights
+    pure (jOutcome (fun (bs : List CsvBallot) => Json.arr (bs.map (fun b => Json.mkObj [
+        ("pattern", .arr (b.pattern.map (fun c => match c with | some n => jNat n | none => Json.null)).toArray),
+        ("w", jRat b.weight), ("voters", jCands b.voters)])).toArray)
+      (loadTable { rankCols := rc, idCol := idc, weightCol := wc } ncols rows ids' ws'))
+  | "load_scottish" => do
+    let rows ← getList (getList getStr) (← field j "rows")
+    pure (jOutcome (fun (r : ScotResult) => Json.mkObj [("seats", jNat r.seats), ("ward", .str r.ward),
+        ("cands", .arr (r.cands.map Json.str).toArray), ("parties", .arr (r.parties.map Json.str).toArray),
+        ("ballots", .arr (r.ballots.map (fun b => Json.arr #[jCands b.1, jNat b.2])).toArray)])
+      (parseScottish rows))
   | "pairwise" => do
     let p ← getProfile (← field j "profile")
     let d := pairwiseDict p
